@@ -360,31 +360,27 @@ func buildBatch(rt reflect.Type, entries []*BatchEntry, update bool) reflect.Val
 	p := reflect.New(rt.Elem())
 	s := p.Elem()
 	st, rs, es := structField(s, "Statuses"), structField(s, "Results"), structField(s, "Errors")
+	// the response is filled the way an implementation does it: through AddResult / AddStatus / AddError
+	addResult, addStatus, addError := p.MethodByName("AddResult"), p.MethodByName("AddStatus"), p.MethodByName("AddError")
+	if !addResult.IsValid() || !addStatus.IsValid() || !addError.IsValid() {
+		report.Internal("%s lacks AddResult / AddStatus / AddError", rt)
+	}
 	for _, e := range entries {
 		k := keyToGo(e.K, rs.Type().Key())
 		if e.Has["results"] {
-			if rs.IsNil() {
-				rs.Set(reflect.MakeMap(rs.Type()))
-			}
 			if update {
 				u := reflect.New(rs.Type().Elem().Elem())
 				u.Elem().FieldByName("Status").SetInt(int64(e.Status))
-				rs.SetMapIndex(k, u)
+				addResult.Call([]reflect.Value{k, u})
 			} else {
-				rs.SetMapIndex(k, toGo(e.Result, rs.Type().Elem()))
+				addResult.Call([]reflect.Value{k, toGo(e.Result, rs.Type().Elem())})
 			}
 		}
 		if e.Has["statuses"] {
-			if st.IsNil() {
-				st.Set(reflect.MakeMap(st.Type()))
-			}
-			st.SetMapIndex(k, reflect.ValueOf(e.Status).Convert(st.Type().Elem()))
+			addStatus.Call([]reflect.Value{k, reflect.ValueOf(e.Status).Convert(st.Type().Elem())})
 		}
 		if e.Has["errors"] {
-			if es.IsNil() {
-				es.Set(reflect.MakeMap(es.Type()))
-			}
-			es.SetMapIndex(k, buildErrResp(es.Type().Elem(), e.Err))
+			addError.Call([]reflect.Value{k, buildErrResp(es.Type().Elem(), e.Err)})
 		}
 	}
 	return p
